@@ -286,6 +286,11 @@ func (eval Evaluator) evaluateInPlace(level int, el0 *rlwe.Ciphertext, el1 *rlwe
 			elOut.Value[i].CopyLvl(level, largest.Value[i])
 		}
 	}
+
+	// Zeroes the higher degree terms of a receiver of larger degree than both inputs (leftovers of a previous use)
+	for i := largest.Degree() + 1; i < elOut.Degree()+1; i++ {
+		elOut.Value[i].Zero()
+	}
 }
 
 func (eval Evaluator) matchScaleThenEvaluateInPlace(level int, el0 *rlwe.Ciphertext, el1 *rlwe.Element[ring.Poly], elOut *rlwe.Ciphertext, evaluate func(ring.Poly, uint64, ring.Poly)) {
